@@ -382,6 +382,8 @@ def _cross_dump(solver, verdict):
     z3 (Python API) gave, to be re-decided by the cvc5 and z3 binaries."""
     if not CROSS['dir'] or verdict not in ('unsat', 'sat'):
         return
+    if CROSS['n'] == 0:
+        CROSS['n'] = os.getpid() % CROSS['every']       # one process per configuration: stagger the selection across them
     CROSS['n'] += 1
     if CROSS['n'] % CROSS['every']:
         return
